@@ -117,6 +117,24 @@ CLAIMED = {
         note="Trusted: Coq kernel + vm_compute, translate/py2coq.py, harness (h11rig.py with library proxies, h11gen.py, http1e2e.py, streams.py, sched.py). h11's parser/serialiser are not modelled (received events and returned bytes are recorded oracle values); h11's state machine is modelled (LibH11.v, a port of h11/_state.py) and cross-checked against the real library after every call. HTTP/2 and both-worker coverage of this property comes from the C08/C09/C16 rigs. Open known finding F14 (application queue full at closure) is reported as KNOWN-FINDING.",
         technique="Coq proof (symbolic execution of the monadic models, exhaustive vm_compute over the h11 state space) + in-Coq differential correspondence",
     ),
+    "C03": dict(
+        text="Coq theorems about the HTTPStream and WSStream models: for every sequence of application messages (valid or not, "
+             "including the end of the application), request-body events and closure events in any order, the access records "
+             "written plus the one already due add up to exactly the one due at the end, and likewise the disconnect messages "
+             "(hence at most one of each, exactly one once the stream is closed); once closed, events deliver nothing and a message "
+             "from the application is accepted or rejected without anything being delivered; a second WebSocket closure delivers "
+             "nothing.  Tied to the code by call-by-call differential execution of the real stream classes and by end-to-end "
+             "closure sessions (HTTP/1, HTTP/2, WebSocket over both, both server-loop flavours) observing every message put into "
+             "every application queue, every send() result and the access records per stream object.",
+        design="7/C03",
+        note="Trusted: Coq kernel + vm_compute, translate/py2coq.py (guard ladders), harness (streams.py, rig.py, sched.py, wsrig.py, h2rig.py, "
+             "c03.py). The theorems are about one stream; that each protocol tells a stream at most once that it is closed "
+             "(_close_stream pops before notifying) and the races between reader, application, send task and server close are "
+             "covered by the end-to-end sessions only (sampling): partial there. The HTTP theorem excludes trailers before the "
+             "response start (open finding F31). F29, F40 fixed (f175b5e, 2621c77); F14 (queue full at closure) open. Modelled not "
+             "verified: http_stream.py, ws_stream.py.",
+        technique="Coq proof (per-step accounting lemmas by symbolic execution + induction over input sequences) + in-Coq differential correspondence",
+    ),
     "C04": dict(
         text="Coq theorems about the HTTP/2 connection as a transition system (model.H2Send) whose reader labels are the events h2 "
              "hands to _handle_events (request, DATA, END_STREAM, RST_STREAM, WINDOW_UPDATE, SETTINGS, PRIORITY on open / closed / "
